@@ -3,6 +3,8 @@
 package main
 
 import (
+	"database/sql"
+	"time"
 	"context"
 	"fmt"
 	"reflect"
@@ -399,6 +401,129 @@ type SdK struct {
 	DeletedAt gorm.DeletedAt
 }
 
+// ---- poly: polymorphic has-many / has-one (with polymorphicValue) onto one toy type ----
+type PlToy struct {
+	ID        int64
+	Name      string
+	Val       int64
+	OwnerID   int64
+	OwnerType string
+}
+type PlOwnerA struct {
+	ID   int64
+	Name string
+	Val  int64
+	Toys []PlToy `gorm:"polymorphic:Owner"`
+}
+type PlOwnerB struct {
+	ID   int64
+	Name string
+	Val  int64
+	Toy  *PlToy `gorm:"polymorphic:Owner;polymorphicValue:bee"`
+}
+
+// ---- m2mx: self-referential many2many and many2many with explicit join keys ----
+type MxUser struct {
+	ID      int64
+	Name    string
+	Val     int64
+	Friends []MxUser `gorm:"many2many:mx_friends"`
+}
+type MxTag struct {
+	ID   int64
+	Name string
+	Val  int64
+}
+type MxPost struct {
+	ID   int64
+	Name string
+	Val  int64
+	Tags []MxTag `gorm:"many2many:mx_post_tags;joinForeignKey:PostRef;joinReferences:TagRef"`
+}
+
+// ---- embrel: a relation declared inside an embedded struct, column prefix ----
+type EbUser struct {
+	ID   int64
+	Name string
+	Val  int64
+}
+type EbAudit struct {
+	Note     string
+	EbUserID int64
+	EbUser   *EbUser
+}
+type EbDoc struct {
+	ID   int64
+	Name string
+	Val  int64
+	EbAudit
+}
+type EbPref struct {
+	ID   int64
+	Name string
+	Val  int64
+	Meta EbMeta `gorm:"embedded;embeddedPrefix:m_"`
+}
+type EbMeta struct {
+	Tag   string
+	Count int64
+}
+
+// ---- fields: every field kind whose setup installs a setter / serializer / pool / time tracking ----
+type FdInfo struct {
+	A string
+	B int64
+}
+type FdAll struct {
+	ID        int64
+	Name      string
+	Val       int64
+	U         uint32
+	F32       float32
+	B         bool
+	At        time.Time
+	PAt       *time.Time
+	PS        *string
+	PI        *int64
+	NS        sql.NullString
+	NI        sql.NullInt64
+	J         FdInfo   `gorm:"serializer:json"`
+	G         []string `gorm:"serializer:gob"`
+	Ux        int64    `gorm:"serializer:unixtime;type:datetime"`
+	CreatedAt time.Time
+	UpdatedAt time.Time
+	UpMs      int64  `gorm:"autoUpdateTime:milli"`
+	Cr        string `gorm:"<-:create;size:20"`
+	Def       int64  `gorm:"default:7"`
+}
+
+// ---- hooked: model hooks (schema flags set by reflection on first use; hooks run per goroutine) and a
+// custom table name ----
+type HkDoc struct {
+	ID    int64
+	Name  string
+	Val   int64
+	Stamp string
+	Seen  int64 `gorm:"-"`
+}
+
+func (d *HkDoc) BeforeCreate(tx *gorm.DB) error { d.Stamp = "bc"; return nil }
+func (d *HkDoc) BeforeUpdate(tx *gorm.DB) error {
+	if tx.Statement.Changed("Val") {
+		tx.Statement.SetColumn("Stamp", "bu")
+	}
+	return nil
+}
+func (d *HkDoc) AfterFind(tx *gorm.DB) error { d.Seen = d.Val + 1; return nil }
+
+type TbDoc struct {
+	ID   int64
+	Name string
+	Val  int64
+}
+
+func (TbDoc) TableName() string { return "tb_docs_custom" }
+
 // ---- bad (protocol rounds only) ----
 type BadP struct {
 	ID   int64
@@ -524,6 +649,18 @@ func init() {
 		td[SzNote]("serial", false),
 		td[SdP]("softdel", false, hm("Kids", "SdK", "SdPID")),
 		td[SdK]("softdel", false),
+		td[PlToy]("poly", false),
+		td[PlOwnerA]("poly", false, hm("Toys", "PlToy", "OwnerID")),
+		td[PlOwnerB]("poly", false, ho("Toy", "PlToy", "OwnerID")),
+		td[MxUser]("m2mx", false, mm("Friends", "MxUser")),
+		td[MxTag]("m2mx", false),
+		td[MxPost]("m2mx", false, mm("Tags", "MxTag")),
+		td[EbUser]("embrel", false),
+		td[EbDoc]("embrel", false, bt("EbUser", "EbUser", "EbUserID")),
+		td[EbPref]("embrel", false),
+		td[FdAll]("fields", false),
+		td[HkDoc]("hooked", false),
+		td[TbDoc]("hooked", false),
 	}
 	Families = map[string][]int{}
 	for i, f := range defs {
@@ -533,7 +670,11 @@ func init() {
 		poolByName[d.Name] = i
 		Families[d.Family] = append(Families[d.Family], i)
 		poolTypes = append(poolTypes, reflect.TypeOf(d.New()).Elem())
-		poolTables = append(poolTables, schema.NamingStrategy{}.TableName(d.Name))
+		if tb, ok := d.New().(schema.Tabler); ok {
+			poolTables = append(poolTables, tb.TableName())
+		} else {
+			poolTables = append(poolTables, schema.NamingStrategy{}.TableName(d.Name))
+		}
 	}
 	k := 0
 	for i := range Pool {
@@ -639,7 +780,13 @@ func poolSelfCheck() error {
 				return fmt.Errorf("pool %s.%s: kind %s, descriptor %s", d.Name, r.Field, rel.Type, r.Kind)
 			}
 			if r.Kind != "many2many" {
-				if len(rel.References) != 1 || rel.References[0].ForeignKey.Name != r.FK {
+				okFK := false
+				for _, ref := range rel.References {
+					if ref.ForeignKey.Name == r.FK {
+						okFK = true
+					}
+				}
+				if !okFK || (len(rel.References) != 1 && rel.Polymorphic == nil) {
 					return fmt.Errorf("pool %s.%s: foreign key mismatch (descriptor %s)", d.Name, r.Field, r.FK)
 				}
 			}
